@@ -9,7 +9,17 @@
 
    for the second pass (harness/render/main.go), which renders the G/F/J/D segments with
    strconv / encoding/json / time and compares bytes. Frame data, NOSTATE and json.Valid are judged
-   here (MISMATCH / PFAIL lines). *)
+   here (MISMATCH / PFAIL lines).
+
+   Call-pattern lines (see the header of render_c19.go):
+     A / AP   retained results: PFAIL "a returned rendering changed after later calls" if the bytes the
+              caller still holds differ from the copy taken when they were returned; the copy goes to the
+              second pass against the model (A only; the AP body was already compared on its P line)
+     AF       msg.Frame() before the first and after the last rendering = the model's frame
+     AC       concurrent renderings: every distinct result goes to the second pass; PFAIL if one
+              (message state, renderer) produced more than one byte string
+     B / BF   Append* onto a caller's prefix: model = append_to [Lit prefix] call (Gen/Render.v);
+              PFAIL if the caller's prefix bytes changed *)
 open Model
 open Common
 open Gendb
@@ -68,35 +78,37 @@ let field (pref : string) (tok : string) : string =
   if String.length tok >= n && String.sub tok 0 n = pref then String.sub tok n (String.length tok - n)
   else failwith ("expected " ^ pref ^ " in " ^ tok)
 
+(* kind = R (fresh instance) or RR (instance rendered before in another state, then Reset + UnmarshalFrame) *)
 let handle_r (line : string) =
   match split_ws line with
-  | [ "R"; pkg; mi; payload; "NOSTATE" ] ->
+  | [ ("R" | "RR"); pkg; mi; payload; "NOSTATE" ] ->
       ignore (pkg, mi, payload);
-      note_case "R" line;
+      note_case (List.hd (split_ws line)) line;
       incr n_mismatch;
       Printf.printf "MISMATCH %s || model=the generated UnmarshalFrame accepts a frame with the message's own id, length and format\n" line
-  | [ "R"; pkg; mi; payload; fdata; t; c; s; g; j; v ] -> (
+  | [ (("R" | "RR") as kind); pkg; mi; payload; fdata; t; c; s; g; j; v ] -> (
       let db = db_of pkg in
       let m = List.nth db.db_messages (int_of_string ("0x" ^ mi)) in
       let short = Printf.sprintf "%s:%s:%s" pkg mi payload in
-      note_case ~nontrivial:(m.msg_signals <> []) "R" (String.concat " " [ "R"; pkg; mi; payload ]);
+      let r = kind ^ ":" in
+      note_case ~nontrivial:(m.msg_signals <> []) kind (String.concat " " [ kind; pkg; mi; payload ]);
       match reach m (data_of_hex payload) with
-      | None -> mismatch (String.concat " " [ "R"; pkg; mi; payload ]) "model rejects the frame"
+      | None -> mismatch (String.concat " " [ kind; pkg; mi; payload ]) "model rejects the frame"
       | Some st ->
           let d = state_data m st in
-          if hex_of_data d <> fdata then mismatch (String.concat " " [ "R"; pkg; mi; payload; fdata ]) ("frame data " ^ hex_of_data d)
+          if hex_of_data d <> fdata then mismatch (String.concat " " [ kind; pkg; mi; payload; fdata ]) ("frame data " ^ hex_of_data d)
           else begin
             cover m d;
-            emit ("R:" ^ short ^ ":Marshal") (field "T=" t) (Some (text_multiline m st));
-            emit ("R:" ^ short ^ ":MarshalCompact") (field "C=" c) (Some (text_compact m st));
-            emit ("R:" ^ short ^ ":MessageString") (field "S=" s) (Some (text_compact m st));
-            emit ("R:" ^ short ^ ":String") (field "G=" g) (Some (text_compact m st));
+            emit (r ^ short ^ ":Marshal") (field "T=" t) (Some (text_multiline m st));
+            emit (r ^ short ^ ":MarshalCompact") (field "C=" c) (Some (text_compact m st));
+            emit (r ^ short ^ ":MessageString") (field "S=" s) (Some (text_compact m st));
+            emit (r ^ short ^ ":String") (field "G=" g) (Some (text_compact m st));
             let jm = json_render m st in
-            emit ("R:" ^ short ^ ":canjson.Marshal") (field "J=" j) jm;
+            emit (r ^ short ^ ":canjson.Marshal") (field "J=" j) jm;
             if jm <> None && field "J=" j <> "E" && field "V=" v <> "1" then begin
               incr n_mismatch;
               Printf.printf "PFAIL %s || clause=json.Valid is false on the output of canjson.Marshal\n"
-                (String.concat " " [ "R"; pkg; mi; payload; j ])
+                (String.concat " " [ kind; pkg; mi; payload; j ])
             end
           end)
   | _ -> failwith ("bad R line: " ^ line)
@@ -124,8 +136,132 @@ let handle_p (line : string) =
       if field "K=" k <> "200" || field "H=" h <> ct then mismatch (String.concat " " [ "P"; pkg; path; k; h ]) ("K=200 H=" ^ ct)
   | _ -> failwith ("bad P line: " ^ line)
 
+
+(* ---- call patterns: retained results, concurrency, prefixes ---------------------------------- *)
+
+let strip_round (r : string) : string = match String.index_opt r '#' with Some i -> String.sub r 0 i | None -> r
+
+let frame_of_fields id len ext rem data : frame =
+  { fr_id = z_of_hex id; fr_length = z_of_hex len; fr_data = data_of_hex data; fr_remote = (rem = "1"); fr_extended = (ext = "1") }
+
+(* the model's text for one entry point on state [st] of [m]; signal index "-" = none *)
+let model_of (m : message) (st : z list) (si : string) (renderer : string) : segment list option =
+  let d = state_data m st in
+  let sg () = List.nth m.msg_signals (int_of_string si) in
+  match renderer with
+  | "Marshal" -> Some (text_multiline m st)
+  | "MarshalCompact" | "MessageString" | "String" -> Some (text_compact m st)
+  | "canjson.Marshal" -> json_render m st
+  | "AppendSignal" -> append_text (CallSignal (sg (), d))
+  | "AppendSignalCompact" -> append_text (CallSignalCompact (sg (), d))
+  | "AppendID" -> append_text (CallID m)
+  | "AppendSender" -> append_text (CallSender m)
+  | "AppendSendType" -> append_text (CallSendType m)
+  | "AppendCycleTime" -> append_text (CallCycleTime m)
+  | "AppendDelayTime" -> append_text (CallDelayTime m)
+  | "AppendFrame" -> append_text (CallFrame (frame_of m st))
+  | r -> failwith ("unknown renderer " ^ r)
+
+let call_of (m : message) (st : z list) (si : string) (fn : string) : append_call =
+  let d = state_data m st in
+  let sg () = List.nth m.msg_signals (int_of_string si) in
+  match fn with
+  | "AppendSignal" -> CallSignal (sg (), d)
+  | "AppendSignalCompact" -> CallSignalCompact (sg (), d)
+  | "AppendID" -> CallID m
+  | "AppendSender" -> CallSender m
+  | "AppendSendType" -> CallSendType m
+  | "AppendCycleTime" -> CallCycleTime m
+  | "AppendDelayTime" -> CallDelayTime m
+  | "AppendFrame" -> CallFrame (frame_of m st)
+  | r -> failwith ("unknown append function " ^ r)
+
+let pfail (tag : string) (clause : string) =
+  incr n_mismatch;
+  Printf.printf "PFAIL %s || clause=%s\n" tag clause
+
+let with_state pkg mi payload (k : message -> z list -> unit) =
+  let db = db_of pkg in
+  let m = List.nth db.db_messages (int_of_string ("0x" ^ mi)) in
+  match reach m (data_of_hex payload) with
+  | None -> mismatch (String.concat " " [ "A"; pkg; mi; payload ]) "model rejects the frame"
+  | Some st -> k m st
+
+let handle_a (line : string) =
+  match split_ws line with
+  | [ "A"; pkg; mi; payload; si; renderer; later; copy; now ] ->
+      note_case "A-retained" (String.concat " " [ "A"; pkg; mi; payload; si; renderer ]);
+      let tag = Printf.sprintf "A:%s:%s:%s:%s:%s" pkg mi payload si renderer in
+      if now <> copy then
+        pfail (Printf.sprintf "%s later=%s copy=%s now=%s" tag later copy now)
+          "a returned rendering changed after later calls (the bytes the caller still holds are no longer the rendering it was given)";
+      with_state pkg mi payload (fun m st -> emit tag copy (model_of m st si (strip_round renderer)))
+  | _ -> failwith ("bad A line: " ^ line)
+
+let handle_ap (line : string) =
+  match split_ws line with
+  | [ "AP"; pkg; path; ents; later; copy; now ] ->
+      note_case "AP-body-retained" (String.concat " " [ "AP"; pkg; path; ents ]);
+      if now <> copy then
+        pfail (Printf.sprintf "AP:%s:%s:%s:body later=%s copy=%s now=%s" pkg path ents later copy now)
+          "a returned rendering changed after later calls (HTTP response body)"
+  | _ -> failwith ("bad AP line: " ^ line)
+
+let handle_af (line : string) =
+  match split_ws line with
+  | [ "AF"; pkg; mi; payload; before; after ] ->
+      note_case "AF-message-unchanged" line;
+      with_state pkg mi payload (fun m st ->
+          let f = frame_of m st in
+          let b01 b = if b then "1" else "0" in
+          let exp = String.concat "," [ hex_of_z f.fr_id; hex_of_z f.fr_length; b01 f.fr_extended; b01 f.fr_remote; hex_of_data f.fr_data ] in
+          if before <> exp then mismatch line ("frame " ^ exp)
+          else if after <> before then
+            pfail (Printf.sprintf "AF:%s:%s:%s before=%s after=%s" pkg mi payload before after)
+              "rendering changed the message: Frame() after the renderings differs from Frame() before them")
+  | _ -> failwith ("bad AF line: " ^ line)
+
+let handle_ac (line : string) =
+  match split_ws line with
+  | [ "AC"; pkg; mi; payload; renderer; calls; results ] ->
+      note_case "AC-concurrent" (String.concat " " [ "AC"; pkg; mi; payload; renderer ]);
+      let rs = String.split_on_char ',' results in
+      let tag = Printf.sprintf "AC:%s:%s:%s:%s:%s" pkg mi payload (if renderer = "AppendSignal" then "0" else "-") renderer in
+      if List.length rs > 1 then
+        pfail (Printf.sprintf "%s calls=%s results=%s" tag calls results)
+          "a returned rendering changed after later calls (concurrent): one message state gave different byte strings to goroutines rendering concurrently";
+      with_state pkg mi payload (fun m st ->
+          let segs = model_of m st "0" renderer in
+          List.iter (fun r -> emit tag r segs) rs)
+  | _ -> failwith ("bad AC line: " ^ line)
+
+let prefix_case (tag : string) (spare : string) (prefix : string) (after : string) (result : string) (c : append_call) =
+  if after <> prefix then
+    pfail (Printf.sprintf "%s spare=%s prefix=%s prefix_after=%s obs=%s" tag spare prefix after result)
+      "Append* must only append: the caller's prefix bytes were modified";
+  emit tag result (append_to [ Lit (bytes_of_hex prefix) ] c)
+
+let handle_b (line : string) =
+  match split_ws line with
+  | [ "B"; pkg; mi; payload; si; fn; spare; prefix; after; result ] ->
+      note_case "B-append-prefix" line;
+      with_state pkg mi payload (fun m st ->
+          prefix_case (Printf.sprintf "B:%s:%s:%s:%s:%s" pkg mi payload si fn) spare prefix after result (call_of m st si fn))
+  | [ "BF"; id; len; ext; rem; data; spare; prefix; after; result ] ->
+      note_case "BF-append-frame" line;
+      prefix_case (Printf.sprintf "BF:%s,%s,%s,%s,%s:%s:AppendFrame" id len ext rem data prefix) spare prefix after result
+        (CallFrame (frame_of_fields id len ext rem data))
+  | _ -> failwith ("bad B line: " ^ line)
+
+let starts line p = String.length line > String.length p && String.sub line 0 (String.length p) = p
+
 let handle line =
-  if String.length line > 2 && String.sub line 0 2 = "R " then handle_r line
+  if starts line "A " then handle_a line
+  else if starts line "AP " then handle_ap line
+  else if starts line "AF " then handle_af line
+  else if starts line "AC " then handle_ac line
+  else if starts line "B " || starts line "BF " then handle_b line
+  else if starts line "R " || starts line "RR " then handle_r line
   else if String.length line > 2 && String.sub line 0 2 = "P " then handle_p line
   else if String.length line > 4 && String.sub line 0 4 = "PKG " then ()
   else failwith ("unparsable line: " ^ line)
